@@ -1,26 +1,46 @@
 package common
 
 import (
+	"bytes"
 	"encoding/json"
+	"errors"
 	"fmt"
+	"io"
 
 	r "github.com/DemoHn/Zn/pkg/runtime"
 	"github.com/DemoHn/Zn/pkg/value"
 )
 
+// plainObject - a JSON object whose members keep their order
+// (a Go map is always written with its keys sorted, and read back in random order)
+type plainObject []plainMember
+
+type plainMember struct {
+	Key   string
+	Value any
+}
+
 func HashMapToJSONString(hm *value.HashMap) (*value.String, error) {
-	data, err := json.Marshal(buildPlainValueFromElement(hm))
+	data, err := marshalPlainValue(buildPlainValueFromElement(hm))
 	if err != nil {
 		return nil, value.ThrowException("生成JSON失败 - " + err.Error())
 	}
 	return value.NewString(string(data)), nil
 }
 
+// maxJSONNestingDepth - how deep lists and objects may nest in a parsed text
+// (the same bound as encoding/json uses)
+const maxJSONNestingDepth = 10000
+
 func JSONStringToElement(jsonStr *value.String) (r.Element, error) {
-	plainMap := map[string]any{}
 	vdata := []byte(jsonStr.GetValue())
-	if err := json.Unmarshal(vdata, &plainMap); err != nil {
+	plainValue, err := unmarshalPlainValue(vdata)
+	if err != nil {
 		return nil, value.ThrowException("解析JSON失败 - " + err.Error())
+	}
+	plainMap, ok := plainValue.(plainObject)
+	if !ok {
+		return nil, value.ThrowException("解析JSON失败 - json: top-level value must be an object")
 	}
 
 	return buildElementFromPlainValue(plainMap), nil
@@ -28,11 +48,84 @@ func JSONStringToElement(jsonStr *value.String) (r.Element, error) {
 
 func ElementToJSONString(elem r.Element) (*value.String, error) {
 	plainValue := buildPlainValueFromElement(elem)
-	jsonStr, err := json.Marshal(plainValue)
+	jsonStr, err := marshalPlainValue(plainValue)
 	if err != nil {
 		return nil, value.ThrowException("生成JSON失败 - " + err.Error())
 	}
 	return value.NewString(string(jsonStr)), nil
+}
+
+// unmarshalPlainValue - read ONE JSON value from data; objects are read as plainObject
+// so that their members stay in document order
+func unmarshalPlainValue(data []byte) (any, error) {
+	dec := json.NewDecoder(bytes.NewReader(data))
+	item, err := decodePlainValue(dec, 0)
+	if err == nil {
+		// only white space may follow the value
+		if _, err = dec.Token(); err == nil {
+			err = errors.New("json: unexpected data after top-level value")
+		} else if err == io.EOF {
+			return item, nil
+		}
+	}
+	if err == io.EOF {
+		err = io.ErrUnexpectedEOF
+	}
+	return nil, err
+}
+
+func decodePlainValue(dec *json.Decoder, depth int) (any, error) {
+	tok, err := dec.Token()
+	if err != nil {
+		return nil, err
+	}
+	delim, isDelim := tok.(json.Delim)
+	if !isDelim {
+		// nil, bool, float64 or string
+		return tok, nil
+	}
+	if depth >= maxJSONNestingDepth {
+		return nil, errors.New("json: exceeded max depth")
+	}
+	switch delim {
+	case '{':
+		resultMap := plainObject{}
+		for dec.More() {
+			keyTok, err := dec.Token()
+			if err != nil {
+				return nil, err
+			}
+			key, ok := keyTok.(string)
+			if !ok {
+				return nil, errors.New("json: object key must be a string")
+			}
+			vi, err := decodePlainValue(dec, depth+1)
+			if err != nil {
+				return nil, err
+			}
+			resultMap = append(resultMap, plainMember{Key: key, Value: vi})
+		}
+		// closing '}'
+		if _, err := dec.Token(); err != nil {
+			return nil, err
+		}
+		return resultMap, nil
+	case '[':
+		resultList := []interface{}{}
+		for dec.More() {
+			vi, err := decodePlainValue(dec, depth+1)
+			if err != nil {
+				return nil, err
+			}
+			resultList = append(resultList, vi)
+		}
+		// closing ']'
+		if _, err := dec.Token(); err != nil {
+			return nil, err
+		}
+		return resultList, nil
+	}
+	return nil, errors.New("json: unexpected delimiter " + delim.String())
 }
 
 func buildPlainValueFromElement(elem r.Element) any {
@@ -46,17 +139,71 @@ func buildPlainValueFromElement(elem r.Element) any {
 	case *value.Number:
 		return vv.GetValue()
 	case *value.Array:
-		var resultList []interface{}
+		// an empty list is written as [] (a nil slice would be written as null)
+		resultList := []interface{}{}
 		for _, vi := range vv.GetValue() {
 			resultList = append(resultList, buildPlainValueFromElement(vi))
 		}
 		return resultList
 	case *value.HashMap:
-		resultMap := map[string]any{}
-		for k, vi := range vv.GetValue() {
-			resultMap[k] = buildPlainValueFromElement(vi)
+		// keep the insertion order of the keys
+		resultMap := plainObject{}
+		elemMap := vv.GetValue()
+		for _, k := range vv.GetKeyOrder() {
+			resultMap = append(resultMap, plainMember{
+				Key:   k,
+				Value: buildPlainValueFromElement(elemMap[k]),
+			})
 		}
 		return resultMap
+	}
+	return nil
+}
+
+func marshalPlainValue(item any) ([]byte, error) {
+	var buf bytes.Buffer
+	if err := writePlainValue(&buf, item); err != nil {
+		return nil, err
+	}
+	return buf.Bytes(), nil
+}
+
+// writePlainValue - objects and lists are written here member by member (objects in
+// their own order); texts, numbers, booleans and null are left to encoding/json
+func writePlainValue(buf *bytes.Buffer, item any) error {
+	switch vv := item.(type) {
+	case plainObject:
+		buf.WriteByte('{')
+		for idx, member := range vv {
+			if idx > 0 {
+				buf.WriteByte(',')
+			}
+			if err := writePlainValue(buf, member.Key); err != nil {
+				return err
+			}
+			buf.WriteByte(':')
+			if err := writePlainValue(buf, member.Value); err != nil {
+				return err
+			}
+		}
+		buf.WriteByte('}')
+	case []interface{}:
+		buf.WriteByte('[')
+		for idx, vi := range vv {
+			if idx > 0 {
+				buf.WriteByte(',')
+			}
+			if err := writePlainValue(buf, vi); err != nil {
+				return err
+			}
+		}
+		buf.WriteByte(']')
+	default:
+		data, err := json.Marshal(vv)
+		if err != nil {
+			return err
+		}
+		buf.Write(data)
 	}
 	return nil
 }
@@ -89,12 +236,13 @@ func buildElementFromPlainValue(item any) r.Element {
 	//// case#3: booleans
 	case bool:
 		return value.NewBool(vv)
-	case map[string]any:
+	case plainObject:
+		// members in document order; a repeated key keeps its first place and its last value
 		target := value.NewEmptyHashMap()
-		for k, v := range vv {
-			finalValue := buildElementFromPlainValue(v)
+		for _, member := range vv {
+			finalValue := buildElementFromPlainValue(member.Value)
 			target.AppendKVPair(value.KVPair{
-				Key:   k,
+				Key:   member.Key,
 				Value: finalValue,
 			})
 		}
